@@ -1,6 +1,7 @@
 package checks
 
 import (
+	"bytes"
 	"context"
 	"errors"
 	"fmt"
@@ -211,6 +212,12 @@ func MakePkt(kind string) *astits.Packet {
 	case "afonly":
 		return &astits.Packet{Header: astits.PacketHeader{PID: 0x300, HasAdaptationField: true, ContinuityCounter: 3},
 			AdaptationField: &astits.PacketAdaptationField{HasPCR: true, PCR: cr(12345, 6), StuffingLength: 176}}
+	case "short": // a PSI-like packet shorter than 188 bytes: WritePacket pads it with 0xFF
+		pl := append([]byte{0x00, 0x42, 0xf0, 0x05}, bytes.Repeat([]byte{0x5a}, 45)...)
+		return &astits.Packet{Header: astits.PacketHeader{PID: 0x301, HasPayload: true, PayloadUnitStartIndicator: true, ContinuityCounter: 7}, Payload: pl}
+	case "shortaf": // adaptation field + short payload, padded
+		return &astits.Packet{Header: astits.PacketHeader{PID: 0x301, HasPayload: true, HasAdaptationField: true, ContinuityCounter: 8},
+			AdaptationField: &astits.PacketAdaptationField{HasPCR: true, PCR: cr(777, 1), StuffingLength: 3}, Payload: bytes.Repeat([]byte{0x33}, 20)}
 	case "big": // payload one byte too large
 		return &astits.Packet{Header: astits.PacketHeader{PID: 0x300, HasPayload: true}, Payload: make([]byte, 185)}
 	case "af252": // adaptation field that cannot fit
